@@ -275,9 +275,9 @@ func ExtractValue(v reflect.Value, extractor ValueExtractor) {
 			return
 		}
 
-		for _, keyValue := range v.MapKeys() {
-			ExtractValue(keyValue, extractor)
-			ExtractValue(v.MapIndex(keyValue), extractor)
+		for it := v.MapRange(); it.Next(); {
+			ExtractValue(it.Key(), extractor)
+			ExtractValue(it.Value(), extractor)
 		}
 		return
 	}
@@ -523,12 +523,12 @@ func convertValueDepth(v reflect.Value, typ reflect.Type, depth int, memo map[co
 		}
 		cv := reflect.MakeMapWithSize(typ, v.Len())
 		defer func() { memo[key] = cv }()
-		for _, k := range v.MapKeys() {
-			ck, err := convertValueDepth(k, typ.Key(), depth+1, memo)
+		for it := v.MapRange(); it.Next(); {
+			ck, err := convertValueDepth(it.Key(), typ.Key(), depth+1, memo)
 			if err != nil {
 				return _zeroValue, err
 			}
-			ce, err := convertValueDepth(v.MapIndex(k), typ.Elem(), depth+1, memo)
+			ce, err := convertValueDepth(it.Value(), typ.Elem(), depth+1, memo)
 			if err != nil {
 				return _zeroValue, err
 			}
